@@ -58,7 +58,16 @@ Fixpoint init_after_last_t_write (l : list eff) (pending : bool) : bool :=
 Definition copies (attr : string) (l : list eff) : bool :=
   existsb (fun e => match e with CopyFrom a _ => String.eqb a attr | _ => false end) l.
 
+(* R4: a mesh object carries no derived state besides what the constructor (re)builds: outside __init__ the only attributes of
+   self that are assigned are the vertices and the elements (a cache filled by a query would survive the in-place operations) *)
+Definition hidden_state (e : eff) : bool :=
+  match e with
+  | AssignAttr obj attr => String.eqb obj "self" && negb (String.eqb attr "v" || String.eqb attr "t")
+  | _ => false
+  end.
+
 Definition entry_ok (f : fentry) : bool :=
+  (if is_mesh_class f && negb (is_ctor f) then forallb (fun e => negb (hidden_state e)) (f_effects f) else true) &&
   if is_ctor f then
     forallb (fun e => negb (writes_param_array e)) (f_effects f) &&
     (if is_mesh_class f then copies "v" (f_effects f) && copies "t" (f_effects f) else true)
@@ -81,7 +90,9 @@ Definition entry_spec (f : fentry) : Prop :=
   (is_ctor f = false -> ends_underscore (f_name f) = true -> is_mesh_class f = true ->
      init_after_last_t_write (f_effects f) false = true) /\
   (* mesh constructors copy their inputs *)
-  (is_ctor f = true -> is_mesh_class f = true -> copies "v" (f_effects f) = true /\ copies "t" (f_effects f) = true).
+  (is_ctor f = true -> is_mesh_class f = true -> copies "v" (f_effects f) = true /\ copies "t" (f_effects f) = true) /\
+  (* outside the constructor, methods of the mesh classes assign no attribute of self other than v and t (no hidden caches) *)
+  (is_mesh_class f = true -> is_ctor f = false -> Forall (fun e => hidden_state e = false) (f_effects f)).
 
 Lemma no_write_no_param_write e : writes_mesh_or_caller e = false -> writes_param_array e = false.
 Proof. destruct e; cbn; intros H; try reflexivity; discriminate. Qed.
@@ -91,7 +102,11 @@ Proof. intros H. rewrite forallb_forall in H. apply Forall_forall. intros e He. 
 
 Lemma entry_ok_sound f : entry_ok f = true -> entry_spec f.
 Proof.
-  unfold entry_ok, entry_spec. intros H. destruct (is_ctor f) eqn:C.
+  unfold entry_ok, entry_spec. intros H0. apply andb_true_iff in H0. destruct H0 as [H4 H].
+  assert (R4 : is_mesh_class f = true -> is_ctor f = false -> Forall (fun e => hidden_state e = false) (f_effects f)).
+  { intros M C. rewrite M, C in H4. cbn [andb negb] in H4. apply forallb_negb_Forall in H4. exact H4. }
+  rewrite <- !and_assoc. split; [|exact R4]. rewrite !and_assoc. clear H4 R4.
+  destruct (is_ctor f) eqn:C.
   - apply andb_true_iff in H. destruct H as [H1 H2]. apply forallb_negb_Forall in H1.
     split; [intros; discriminate|]. split; [assumption|]. split; [intros; discriminate|].
     intros _ M. rewrite M in H2. apply andb_true_iff in H2. exact H2.
